@@ -119,11 +119,16 @@ def crash_run_once(fsdbh, keytab, ops, nkeys, n, recovery_crash=None):
 def generation_run(fsdbh, rng, gid):
     """a database written by an earlier process (clean exit), then a FRESH process opens it, goes on writing and dies at a
     chosen mutation (or exits); a third process observes.  What the second process acknowledged must be in effect."""
-    nkeys = rng.randint(1, 3)
+    once = rng.random() < 0.4          # every key written exactly once by the first process: one record per key on disk
+    nkeys = rng.randint(2, 5) if once else rng.randint(1, 3)
     keytab = "keytab " + " ".join(("k%d" % k).encode().hex() for k in range(1, nkeys + 1))
     v = 0
     ops1 = []
-    for _ in range(rng.randint(3, 8)):
+    if once:
+        for k in rng.sample(range(1, nkeys + 1), nkeys):
+            v += 1
+            ops1.append("set 0 %d %d %d s" % (k, v, rng.choice([1, 3, 64])))
+    for _ in range(0 if once else rng.randint(3, 8)):
         v += 1
         ops1.append("set 0 %d %d %d s" % (rng.randint(1, nkeys), v, rng.choice([1, 3, 64])))
     ops2 = []
@@ -286,7 +291,7 @@ def run(rep):
                 samples.append(dict(workload=ops, crash_before_mutation=r["n"], crashed_at=r["at"], acknowledged=i,
                                     observed=r["obs"]))
     # generations: the crash happens in a process that OPENED an existing database (its counters come from Load)
-    ng = 24 if rep.tier == "quick" else 400
+    ng = 32 if rep.tier == "quick" else 400
     grng = C.rng_for(rep.seed, "c04-gen")
     with cf.ThreadPoolExecutor(max_workers=C.NCPU) as ex:
         gres = list(ex.map(lambda g: generation_run(fsdbh, random.Random(grng.random()), g), range(ng)))
